@@ -104,8 +104,66 @@ func children(v util.Message) (hs int, kids []util.Message, ok bool) {
 			kids = append(kids, e)
 		}
 		return 8, kids, true
+	case *protocol.Ethernet:
+		// header, then the payload - itself taken apart down to its own headers and children, each
+		// child in its stand-alone encoding (a container of containers: frame > IPv6 > extension
+		// headers > options)
+		hs = len(x.HWDst) + len(x.HWSrc) + 2
+		if x.VLANID.VID != 0 || x.VLANID.PCP != 0 || x.VLANID.DEI != 0 {
+			hs += 4
+		}
+		if x.Data != nil {
+			kids = pktPieces(x.Data)
+		}
+		return hs, kids, true
 	}
 	return 0, nil, false
+}
+
+// ownHeader: the first n bytes of the stand-alone encoding of m (its header, as it writes it itself)
+func ownHeader(m util.Message, n int) util.Message {
+	var b []byte
+	func() {
+		defer func() { recover() }()
+		b, _ = m.MarshalBinary()
+	}()
+	if len(b) > n {
+		b = b[:n]
+	}
+	return util.NewBuffer(append([]byte{}, b...))
+}
+
+// pktPieces: a packet header value as the sequence own header, children (in the order of the next-header
+// chain), payload; anything that is not a container of values is one piece
+func pktPieces(m util.Message) []util.Message {
+	switch x := m.(type) {
+	case *protocol.IPv6:
+		if x == nil || x.Data == nil {
+			return []util.Message{m}
+		}
+		ps := []util.Message{ownHeader(x, 40)}
+		nxt := x.NextHeader
+		for k := 0; k < 3; k++ {
+			switch {
+			case nxt == protocol.Type_HBH && x.HbhHeader != nil:
+				ps = append(ps, ownHeader(x.HbhHeader, 2))
+				for _, o := range x.HbhHeader.Options {
+					ps = append(ps, o)
+				}
+				nxt = x.HbhHeader.NextHeader
+			case nxt == protocol.Type_Routing && x.RoutingHeader != nil:
+				ps = append(ps, x.RoutingHeader)
+				nxt = x.RoutingHeader.NextHeader
+			case nxt == protocol.Type_Fragment && x.FragmentHeader != nil:
+				ps = append(ps, x.FragmentHeader)
+				nxt = x.FragmentHeader.NextHeader
+			default:
+				k = 3
+			}
+		}
+		return append(ps, x.Data)
+	}
+	return []util.Message{m}
 }
 
 type obsT struct {
@@ -326,6 +384,6 @@ func runEnc(prop string, seed uint64, tier, dir string) error {
 		o.Add(fmt.Sprintf("(Enc %s %s %d %s)", term, obsTerm(res), hs, listT(kidTerms)), js, kind, shape)
 	}
 	o.Meta["element_kinds_used"] = kindTotals
-	o.Meta["rule"] = "random recipes of API calls (constructors, setter calls, field assignments, adders incl. prepend) for every controller-originated message kind; for C13 also the values obtained by parsing the encodings of built messages; for C06 / C13 also Ethernet frames and values of the record kinds of package protocol (IGMP v1-v3, DHCP with options, LLDP, 802.1Q tag, IPv6 option); (flow-mod with all commands 0..255, group-mod, packet-out, port-mod, multipart requests, NXT vendor messages, bundle control, bundle add nesting depth <= 2) and stand-alone elements (all action kinds incl. conntrack nesting, match fields through every constructor, instructions, buckets, matches); boundary-biased field values, geometric list sizes; a case is distinct by kind x number of element kinds used x recipe size bucket"
+	o.Meta["rule"] = "random recipes of API calls (constructors, setter calls, field assignments, adders incl. prepend) for every controller-originated message kind; for C13 also the values obtained by parsing the encodings of built messages; for C06 / C13 also Ethernet frames (for C06 taken apart into frame header, IPv6 header, extension headers in next-header order, options and payload, each in its stand-alone encoding) and values of the record kinds of package protocol (IGMP v1-v3, DHCP with options, LLDP, 802.1Q tag, IPv6 option); (flow-mod with all commands 0..255, group-mod, packet-out, port-mod, multipart requests, NXT vendor messages, bundle control, bundle add nesting depth <= 2) and stand-alone elements (all action kinds incl. conntrack nesting, match fields through every constructor, instructions, buckets, matches); boundary-biased field values, geometric list sizes; a case is distinct by kind x number of element kinds used x recipe size bucket"
 	return o.Close()
 }
